@@ -14,6 +14,10 @@ Implementation: `DefaultFormatter.number` directly (part a) and every text-produ
     by side, and with histories of commands interleaved over 2-4 builders of pairwise different settings that live
     at the same time (one more created / one torn down in the middle now and then, values re-sent across builders):
     every call is judged under the settings of its OWN builder.
+(d) relative distance mode - histories on one builder: into G91 (`set_distance_mode` / `with relative_mode()`), 2-6 moves
+    and rapids in a row whose increments have digits beyond the configured places (first dropped digit 4 / 5 / 6), an
+    absolute move in the middle now and then, back to G90; every word is judged against the increment requested in
+    THAT call; the model renders the double (position + increment) - position.
 """
 from __future__ import annotations
 
@@ -691,6 +695,7 @@ def distinct_cfgs(rng, k):
 
 
 HALTS = ("halt", "pause", "stop", "wait")
+JUDGED = ("call", "enter", "exit")  # events that may write lines: a builder call, a mode context opened / closed
 
 
 def admissible(name, call, on):
@@ -766,7 +771,7 @@ def gen_group(rng):
 def play_group(cfgs, events, invoke=None):
     """drive the real builders; per event None or (exc, lines at the builder's own writer, {other builder: lines})"""
     invoke = invoke or (lambda g, ev: do_call(g, ev["call"]))
-    alive, out = {}, []
+    alive, out, ctxs = {}, [], {}
 
     def text(bs):
         return [b.decode("utf-8", "replace") for b in bs]
@@ -789,7 +794,14 @@ def play_group(cfgs, events, invoke=None):
                 try:
                     with warnings.catch_warnings():
                         warnings.simplefilter("ignore", RuntimeWarning)  # numpy on NaN/inf coordinates
-                        invoke(g, ev)
+                        if ev["ev"] == "enter":  # `with g.<ctx>():` opened here, closed by the matching "exit"
+                            cm = getattr(g, ev["ctx"])()
+                            cm.__enter__()
+                            ctxs.setdefault(b, []).append(cm)
+                        elif ev["ev"] == "exit":
+                            ctxs[b].pop().__exit__(None, None, None)
+                        else:
+                            invoke(g, ev)
                 except Exception as e:  # noqa: BLE001
                     exc = "ValueError" if isinstance(e, ValueError) else type(e).__name__
                 foreign = {i: text(r.raw[marks[i]:]) for i, (_, r) in alive.items() if i != b and len(r.raw) > marks[i]}
@@ -811,54 +823,282 @@ def group_case(cfgs, events, upto):
     """the history up to and including event `upto`, replayable"""
     evs = []
     for ev in events[: upto + 1]:
-        if ev["ev"] == "call":
-            lc = line_case(cfgs[ev["b"]], ev["name"], ev["stmts"], ev["call"])
-            evs.append({"ev": "call", "b": ev["b"], "name": ev["name"], "call_expr": lc["call_expr"], "stmts": lc["stmts"]})
+        if ev["ev"] in JUDGED:
+            lc = line_case(cfgs[ev["b"]], ev["name"], ev["stmts"], ev.get("call"))
+            e = {"ev": ev["ev"], "b": ev["b"], "name": ev["name"], "call_expr": lc["call_expr"], "stmts": lc["stmts"]}
+            if "ctx" in ev:
+                e["ctx"] = ev["ctx"]
+            if "mstmts" in ev:  # what the model is asked to render when that is not the statement of the requested values
+                e["mstmts"] = line_case(cfgs[ev["b"]], ev["name"], ev["mstmts"])["stmts"]
+            evs.append(e)
         else:
             evs.append(dict(ev))
     return {"builders": [cfg_json(c) for c in cfgs], "events": evs, "judged_event": upto,
             "judged_builder": events[upto]["b"]}
 
 
-def run_groups(R, n, label, oracle_only=False):
-    groups = [gen_group(R.rng) for _ in range(n)]
+def run_groups(R, n, label, oracle_only=False, groups=None, pre="alive"):
+    """groups: histories (cfgs, events) to run instead of n generated by `gen_group`; pre: prefix of the counters.
+    An event may carry `mstmts`: the statements the MODEL is asked to render (the doubles the documented arithmetic of
+    the call hands to the formatter), while the oracle always judges the bytes against `stmts` (the values requested)."""
+    if groups is None:
+        groups = [gen_group(R.rng) for _ in range(n)]
     lines, spans = [], {}
     for gi, (cfgs, events) in enumerate(groups):
         for ei, ev in enumerate(events):
-            if ev["ev"] != "call":
+            if ev["ev"] not in JUDGED:
                 continue
             dp, sym, le, labels = cfgs[ev["b"]]
             cf = F.cfg_fields(dp, sym, F.LINE_ENDINGS[le], labels)
-            spans[gi, ei] = (len(lines), len(ev["stmts"]))
-            lines += [F.stmt_line(cf, st) for st in ev["stmts"]]
+            mst = ev.get("mstmts", ev["stmts"])
+            spans[gi, ei] = (len(lines), len(mst))
+            lines += [F.stmt_line(cf, st) for st in mst]
     model = [] if oracle_only else core.run_model("format", lines)
     for gi, (cfgs, events) in enumerate(groups):
         obs = play_group(cfgs, events)
         first_call = next(i for i, ev in enumerate(events) if ev["ev"] == "call")
-        R.count(label, f"alive:builders={len(cfgs)}",
-                *sorted({"alive:" + ev["ev"] + "-in-the-middle" for ev in events[first_call:] if ev["ev"] != "call"}))
+        R.count(label, f"{pre}:builders={len(cfgs)}",
+                *sorted({f"{pre}:" + ev["ev"] + "-in-the-middle" for ev in events[first_call:] if ev["ev"] != "call"}))
         created = set()
         for ei, (ev, ob) in enumerate(zip(events, obs)):
             if ev["ev"] == "new":
                 created.add(ev["b"])
-            if ev["ev"] != "call":
+            if ev["ev"] not in JUDGED:
                 continue
             b, name, stmts = ev["b"], ev["name"], ev["stmts"]
             cfg = cfgs[b]
             exc, raws, foreign = ob
             others = [cfg_json(cfgs[i]) for i in sorted(created) if i != b]
-            small = {**line_case(cfg, name, stmts, ev["call"]), "alive_with": others}
+            if pre == "alive":
+                small = {**line_case(cfg, name, stmts, ev.get("call")), "alive_with": others}
+            else:  # the history is the input: the same call after a different history is a different case
+                small = {**line_case(cfg, name, stmts, ev.get("call")),
+                         "after": [e.get("name", e["ev"]) + ":" + (call_expr(e["call"]) if e.get("call") else "")
+                                   for e in events[:ei] if e["ev"] in JUDGED]}
             bad = has_bad(stmts)
             R.case(small, nontrivial=bool(raws) and not bad)
-            R.count("alive:call", "alive:line:" + name, "alive:outcome:" + (exc or "ok"), f"alive:dp={cfg[0]}")
+            R.count(f"{pre}:call", f"{pre}:line:" + name, f"{pre}:outcome:" + (exc or "ok"), f"{pre}:dp={cfg[0]}",
+                    *ev.get("tags", ()))
             full = lambda cfgs=cfgs, events=events, ei=ei: group_case(cfgs, events, ei)  # noqa: E731 - built on demand
             if not oracle_only:
                 lo, k = spans[gi, ei]
-                compare_with_model(R, cfg, name, full, stmts, exc, raws, model[lo: lo + k])
+                compare_with_model(R, cfg, name, full, ev.get("mstmts", stmts), exc, raws, model[lo: lo + k])
                 if foreign:
-                    R.disagree("alive:output-at-another-builder", full(), foreign, {})
+                    R.disagree(f"{pre}:output-at-another-builder", full(), foreign, {})
             for tag, msg in line_oracle(cfg, stmts, exc, raws):
-                R.fail(full(), f"builder {b} {cfg_json(cfg)} (alive with {others}): {msg}", tag=tag)
+                R.fail(full(), f"builder {b} {cfg_json(cfg)} (alive with {others}): {msg}" if pre == "alive" else
+                       f"{call_expr(ev['call']) if ev.get('call') else name} after the history recorded in the case "
+                       f"{cfg_json(cfg)}: {msg}", tag=tag)
+
+
+# ------------------------------------------------------------------ (d) consecutive moves in relative distance mode
+#
+# "Every numeric word is within half a unit of the last configured decimal place of the value requested" - in G91 the
+# value requested for an axis is the increment given in THAT call, whatever was written before.  Parts (b)/(c) only issue
+# moves in absolute mode.  Here one builder is taken into relative mode (`set_distance_mode("relative")` or a
+# `with g.relative_mode():` block, from an unknown position, after a `set_axis`, or after an absolute move) and given 2-6
+# moves / rapids in a row - the same axis named again and again - whose increments have digits beyond the configured
+# places, the first dropped digit being 4, 5 or 6 (just below / at / just above the half unit); now and then an
+# absolute move (G90 .. G91 around it) in the middle; then back to absolute mode and one more move.  Anything carried
+# from one increment to the next shows up as a word half a unit or more away from the increment asked for.
+#
+# The builder computes the increment it writes as (position + increment) - position in binary64.  The generator only
+# sends increments for which that arithmetic is either exact or cannot reach the rounding boundary (`settled`), so the
+# strict half-unit oracle against the requested value is decidable; the model is asked to render the double that
+# arithmetic yields (`mstmts`), the oracle judges against the increment requested (`stmts`).
+
+
+def near_half(rng, dp):
+    """a double with digits beyond `dp` places: (k + 0.4.. | 0.5.. | 0.6..) units of the last place, either sign"""
+    import numpy as np
+
+    if dp <= 8 and rng.random() < 0.12:  # odd multiples of 2^-(dp+1): exact ties, exact arithmetic on dyadic positions
+        x = (2 * rng.randint(0, 60) + 1) / 2 ** (dp + 1)
+    else:
+        k = rng.choice([0, 0, rng.randint(0, 9), rng.randint(0, 10 ** rng.randint(1, 6))])
+        d = rng.choice([4, 4, 5, 6, 6])
+        tail = rng.choice(["", "", "", "9", "99", "1", "01", "5", str(rng.randint(0, 999))])
+        frac = Fraction(int(f"{d}{tail}"), 10 ** (1 + len(tail)))
+        x = float((k + frac) / 10 ** dp)
+    x = x * rng.choice([-1, 1])
+    return np.float64(x) if rng.random() < 0.08 else x
+
+
+def settled(cur, dx, dp):
+    """does the increment the builder computes, (cur + dx) - cur, round like dx itself?  Yes when the addition is exact
+    (the difference is then dx again), or when dx is further from the nearest rounding boundary (k + 1/2) 10^-dp than
+    the arithmetic can move it (4 ulp of the larger operand: a generous bound)"""
+    cur, dx = float(cur), float(dx)
+    s = cur + dx
+    if Fraction(s) == Fraction(cur) + Fraction(dx):
+        return True
+    q = Fraction(dx) * 10 ** dp
+    dist = abs(q - math.floor(q) - Fraction(1, 2)) / 10 ** dp
+    return dist > 4 * F.ulp_of(max(abs(cur), abs(s), abs(dx)))
+
+
+def as_float(kw):
+    """coordinates of move / rapid go through the (identity) transform: plain float64"""
+    return {k: (float(x) if k.upper() in "XYZ" and F._is_number(x) and math.isfinite(float(x)) else x)
+            for k, x in kw.items()}
+
+
+def gen_rel_history(rng, fixed=None):
+    """(cfgs, events) for one builder.  fixed: (dp, prelude, switch, [(name, {axis: increment})...]) - a hand-written
+    member of the family built by the same code"""
+    from gscrib import enums as E
+
+    cfg = gen_cfg(rng)
+    if fixed:
+        cfg = (fixed[0], ";", "\n", ("X", "Y", "Z"))
+    dp, sym = cfg[0], cfg[1]
+    events = [{"ev": "new", "b": 0}]
+    cur = {"x": 0.0, "y": 0.0, "z": 0.0}  # an unknown position counts as 0
+    opening, closing = F.style_of(sym)
+
+    def table_stmt(enum):
+        code, desc = F.table(enum)
+        return {"kind": "table", "code": code, "params": None, "c": None, "desc": desc}
+
+    g90, g91 = table_stmt(E.DistanceMode("absolute")), table_stmt(E.DistanceMode("relative"))
+
+    def emit(name, spec, stmts, mstmts=None, tags=()):
+        ev = {"ev": "call", "b": 0, "name": name, "call": spec, "stmts": stmts, "tags": list(tags)}
+        if mstmts is not None:
+            ev["mstmts"] = mstmts
+        events.append(ev)
+
+    def comment():
+        cm = rng.choice(COMMENTS) if rng.random() < 0.25 else None
+        return cm
+
+    def with_comment(kw, cm):
+        kw = dict(kw)
+        if cm is not None or rng.random() < 0.3:
+            kw["comment"] = cm
+        return kw
+
+    def position(pmax):
+        m = rng.random()
+        if m < 0.3:
+            return rng.randint(-pmax, pmax)
+        if m < 0.55:
+            return rng.randint(-pmax * 2 ** 9, pmax * 2 ** 9) / 2 ** rng.randint(0, 9)
+        if m < 0.8:
+            return rng.uniform(-pmax, pmax)
+        return near_half(rng, dp)
+
+    def absolute(kind, kw, relative_now):
+        """set_axis / move / rapid in absolute mode / move_absolute / rapid_absolute (G90 .. G91 around it when relative)"""
+        cm = comment()
+        if kind == "set_axis":
+            code, desc = F.table(E.PositioningMode.OFFSET)
+            sts = [{"kind": "table", "code": code, "params": F.move_params(kw), "c": cm, "desc": desc}]
+        else:
+            code = "G1" if kind.startswith("move") else "G0"
+            kwm = as_float(kw) if kind in ("move", "rapid") else kw
+            sts = [{"kind": "cmd", "code": code, "params": F.move_params(kwm), "c": cm}]
+            if relative_now:
+                sts = [g90] + sts + [g91]
+        for a, x in kw.items():
+            cur[a] = float(x)
+        emit(kind, C(kind, **with_comment(kw, cm)), sts, tags=["rel:absolute-call:" + kind])
+
+    guard = set()  # generator guards hit while drawing the increments of the next call (reported as counters)
+
+    def increments(main):
+        kw = {}
+        for a in "xyz":
+            if a == main or rng.random() < 0.45:
+                for _ in range(30):
+                    dx = near_half(rng, dp)
+                    if settled(cur[a], dx, dp):
+                        break
+                    guard.add("rel:guard:unsettled-increment-redrawn")
+                else:
+                    dx = 0.0
+                    guard.add("rel:guard:no-settled-increment-found-sent-0")
+                kw[a] = dx
+        return kw
+
+    def relative(name, kw, malformed=False):
+        cm = comment()
+        extra = {}
+        if rng.random() < 0.3:
+            extra["F"] = value(rng, dp, "pos")
+        req = {**kw, **extra}
+        if malformed:
+            req[rng.choice(list(kw))] = bad_value(rng)
+        code = "G1" if name == "move" else "G0"
+        st = {"kind": "cmd", "code": code, "params": F.move_params(as_float(req)), "c": cm}
+        if malformed:
+            emit(name, C(name, **with_comment(req, cm)), [st], tags=["rel:malformed"])
+            return
+        # what the documented arithmetic hands to the formatter: (position + increment) - position
+        sent, tags = dict(req), set(guard)
+        guard.clear()
+        for a, dx in kw.items():
+            s = cur[a] + float(dx)
+            sent[a] = s - cur[a]
+            tags.add("rel:arith:" + ("exact" if sent[a] == float(dx) else "inexact-but-settled"))
+            q = abs(Fraction(repr(float(dx)))) * 10 ** dp  # the digits as written in the call
+            tags.add("rel:first-dropped-digit=" + str(int((q - math.floor(q)) * 10)))
+            cur[a] = s
+        mst = {"kind": "cmd", "code": code, "params": F.move_params(sent), "c": cm}
+        emit(name, C(name, **with_comment(req, cm)), [st], [mst], tags=sorted(tags))
+
+    # prelude: where the builder is when the relative block starts
+    pmax = 10 ** rng.randint(0, max(0, min(3, 10 - dp)))
+    if fixed:
+        if fixed[1]:
+            absolute("set_axis", fixed[1], False)
+    else:
+        m = rng.random()
+        if m > 0.3:
+            kw = {a: position(pmax) for a in "xyz" if rng.random() < 0.7} or {"x": position(pmax)}
+            absolute("set_axis" if m < 0.6 else rng.choice(["move", "rapid", "move_absolute", "rapid_absolute"]), kw, False)
+    # into relative mode
+    by_ctx = fixed[2] == "ctx" if fixed else rng.random() < 0.5
+    if by_ctx:
+        events.append({"ev": "enter", "b": 0, "ctx": "relative_mode", "name": "relative_mode:enter", "stmts": [g91]})
+    else:
+        emit("set_distance_mode", C("set_distance_mode", "relative"), [g91])
+    # the block
+    if fixed:
+        for name, kw in fixed[3]:
+            relative(name, kw)
+    else:
+        main = rng.choice("xyz")
+        n = rng.randint(2, 6)
+        interlude = rng.randrange(1, n) if rng.random() < 0.25 else -1
+        bad_at = rng.randrange(0, n) if rng.random() < 0.08 else -1
+        for i in range(n):
+            if i == interlude:
+                kw = {a: position(pmax) for a in "xyz" if rng.random() < 0.5} or {main: position(pmax)}
+                absolute(rng.choice(["move_absolute", "rapid_absolute"]), kw, True)
+            relative(rng.choice(["move", "move", "rapid"]), increments(main), malformed=(i == bad_at))
+    # back to absolute mode, one more move: the word is the coordinate requested
+    if by_ctx:
+        events.append({"ev": "exit", "b": 0, "ctx": "relative_mode", "name": "relative_mode:exit", "stmts": [g90]})
+    else:
+        emit("set_distance_mode", C("set_distance_mode", "absolute"), [g90])
+    kw = {a: near_half(rng, dp) for a in "xyz" if rng.random() < 0.5} or {"x": near_half(rng, dp)}
+    absolute(rng.choice(["move", "rapid"]), kw, False)
+    return [cfg], events
+
+
+REL_CORPUS = [
+    (3, None, "call", [("move", {"y": 1.0004}), ("move", {"y": 1.0004}), ("rapid", {"y": 1.0004})]),
+    (5, {"x": 10, "z": 2.5}, "ctx", [("move", {"x": -0.000006, "z": 0.25}), ("move", {"x": -0.000006}),
+                                      ("move", {"x": -0.000006, "z": 0.0000149})]),
+    (0, {"z": 7}, "call", [("rapid", {"z": 0.4}), ("move", {"z": 0.4, "x": 2.6}), ("move", {"z": 0.4, "x": 2.6})]),
+]
+
+
+def run_relative(R, n, label, oracle_only=False, corpus=False):
+    groups = [gen_rel_history(R.rng, fx) for fx in REL_CORPUS] if corpus else []
+    groups += [gen_rel_history(R.rng) for _ in range(n)]
+    run_groups(R, 0, label, oracle_only=oracle_only, groups=groups, pre="rel")
 
 
 def replay_group(case):
@@ -869,34 +1109,36 @@ def replay_group(case):
     events = []
     for ev in case["events"]:
         ev = dict(ev)
-        if ev["ev"] == "call":
-            stmts = []
-            for st in ev["stmts"]:
-                st = dict(st)
-                if st.get("params") is not None:
-                    st["params"] = [(k, eval(v, dict(env))) for k, v in st["params"]]  # noqa: S307 - our own reprs
-                stmts.append(st)
-            ev["stmts"] = stmts
+        for key in ("stmts", "mstmts"):
+            if ev["ev"] in JUDGED and key in ev:
+                stmts = []
+                for st in ev[key]:
+                    st = dict(st)
+                    if st.get("params") is not None:
+                        st["params"] = [(k, eval(v, dict(env))) for k, v in st["params"]]  # noqa: S307 - our own reprs
+                    stmts.append(st)
+                ev[key] = stmts
         events.append(ev)
     obs = play_group(cfgs, events, invoke=lambda g, ev: eval(ev["call_expr"], {**env, "g": g}))  # noqa: S307
     for i, c in enumerate(case["builders"]):
         print(f"builder {i}:", c)
     rc = 0
     for ei, (ev, ob) in enumerate(zip(events, obs)):
-        if ev["ev"] != "call":
+        if ev["ev"] not in JUDGED:
             print(f"[{ei}] builder {ev['b']}: {'created' if ev['ev'] == 'new' else 'torn down'}")
             continue
         cfg = cfgs[ev["b"]]
         exc, raws, foreign = ob
         cf = F.cfg_fields(cfg[0], cfg[1], F.LINE_ENDINGS[cfg[2]], cfg[3])
-        recs = core.run_model("format", [F.stmt_line(cf, st) for st in ev["stmts"]])
+        mst = ev.get("mstmts", ev["stmts"])
+        recs = core.run_model("format", [F.stmt_line(cf, st) for st in mst]) if mst else []
         mo = ("ValueError", []) if any(r == "ValueError" for r in recs) else \
             (None, [F.dec(r.split(" | ")[0][3:]) for r in recs])
         msgs = list(line_oracle(cfg, ev["stmts"], exc, raws))
         same = not foreign and ((exc, raws) == mo or (exc is None and mo[0] is None and len(raws) == len(mo[1]) and all(
-            a == b or relaxed_equal(cfg, ev["stmts"], a, b, w)
-            for a, b, w in zip(raws, mo[1], F.expected_words(ev["stmts"], cfg[3])))))
-        print(f"[{ei}] builder {ev['b']}:", ev["call_expr"])
+            a == b or relaxed_equal(cfg, mst, a, b, w)
+            for a, b, w in zip(raws, mo[1], F.expected_words(mst, cfg[3])))))
+        print(f"[{ei}] builder {ev['b']}:", ev["call_expr"] or f"with g.{ev.get('ctx')}(): {ev['ev']}")
         print("      impl   :", exc, raws, *(["at other builders:", foreign] if foreign else []))
         if msgs or not same:
             print("      model  :", mo[0], mo[1])
@@ -926,7 +1168,9 @@ def run(R: core.Run):
               "finite and non-zero.  lines: (formatter settings, one text-producing builder command); non-trivial = "
               "at least one line written.  several alive: the same numbers through 13 formatters living side by side "
               "(one per precision); histories of 4-16 such commands interleaved over 2-4 builders with pairwise different "
-              "settings that live at the same time, each call judged under its own builder's settings.  Distinct by hash "
+              "settings that live at the same time, each call judged under its own builder's settings.  relative mode: "
+              "histories of 2-6 consecutive relative moves/rapids on one builder (increments k + 0.4.. / 0.5.. / 0.6.. units "
+              "of the last place, dp as for lines), each call judged against the increment it requested.  Distinct by hash "
               "of the case.")
     R.assumptions = [
         "numpy's Dragon4 digit generation (unique=True) is a trusted parameter: the model receives the shortest "
@@ -941,6 +1185,10 @@ def run(R: core.Run):
         "property's quantifier (finite numbers) and are not generated",
         "coordinates of move/rapid/probe pass through the identity transform (binary64); the model is given "
         "the exact rational of the resulting double",
+        "relative moves: the builder writes (position + increment) - position computed in binary64; the generator only "
+        "sends increments for which that sum is exact or which are further from a rounding boundary than 4 ulp of the "
+        "position (counter rel:guard:*), so the half-unit bound against the requested increment is decidable; an "
+        "increment at a decimal tie added to an inexact position is outside this check",
         "comment symbols do not contain the text '{}' (the template is split at its first '{}')",
         "ASCII axis labels / parameter names (str.upper is modelled for ASCII)",
     ]
@@ -982,6 +1230,8 @@ def run(R: core.Run):
     run_lines(R, R.n(400, 8000), "lines:adversarial-comment-text", adv=True)
     # (c) several builders alive, calls interleaved
     run_groups(R, R.n(220, 6000), "lines:several-builders-alive")
+    # (d) consecutive moves in relative distance mode, increments with digits beyond the configured places
+    run_relative(R, R.n(150, 5000), "lines:relative-mode-histories", corpus=True)
 
     if R.broken:
         # failing-input search: fresh batches judged by the oracle alone
@@ -994,6 +1244,7 @@ def run(R: core.Run):
         run_numbers(R, [gen_number(R.rng, np) for _ in range(R.n(6000, 60000))], "search:numbers:several-formatters-alive",
                     oracle_only=True, alive=order)
         run_groups(R, R.n(400, 4000), "search:lines:several-builders-alive", oracle_only=True)
+        run_relative(R, R.n(300, 4000), "search:lines:relative-mode-histories", oracle_only=True)
     return {}, {}
 
 
